@@ -187,6 +187,10 @@ def run(rep, facts, tier):
                 continue
             n_w += 1
             ok = fn in allowed[k]
+            if k == ('lex::Lex', 'tmp') and fn.startswith('lex::Lex::'):
+                # the scratch text buffer takes no part in the cursor argument; any method of the lexer may use it
+                rep.add('C16.R2', 'C16.R2:write:Lex.tmp:%s' % fn, True, 'scratch buffer for literal text (not part of the cursor state)', fn, w['at'], nontrivial=False)
+                continue
             rep.add('C16.R2', 'C16.R2:write:%s.%s:%s' % (k[0].split('::')[-1], k[1], fn), ok,
                     allowed[k].get(fn, '') if ok else '%s writes %s.%s (%s): the cursor no longer moves only by whole characters through take_char'
                     % (short(fn), k[0], k[1], w['how']), fn, w['at'], nontrivial=(k[1] == 'pos'))
@@ -251,38 +255,71 @@ def run(rep, facts, tier):
                     % (short(fn), '->bb'.join(map(str, cyc[:10]))), fn, f.at(h))
     rep.floor('C16.R1 natural loops in lex.rs', n_loops, 9)
 
-    # every non-EndOfInput Ok return of next is behind a successful take_char
-    takes = []
-    dom = nf.dominators()
-    for bb, t in nf.calls():
-        if callee_of(t) == TAKE:
-            for b2 in nf.reachable_blocks():
-                swi = option_switch(nf, b2)
-                if swi and _mentions_call_at(swi[0], TAKE, bb):
-                    takes.append(swi[1])       # Some-side target
+    # every non-EndOfInput Ok return of next is behind a successful take_char.  Token constructions may sit in next or
+    # in private helpers of the lexer that next (transitively) calls: a helper's construction counts as guarded when it is
+    # guarded inside the helper, or when every call site of the helper is (the helper runs only after a character was taken).
+    helpers = {g for g in fx.reachable_from({nf.name}) if g.startswith('lex::Lex::') and g in fx.fns and '{closure' not in g
+               and g not in (TAKE, PEEK)}
+    helpers.add(nf.name)
+
+    def some_sides(g):
+        out = []
+        for bb, t in g.calls():
+            if callee_of(t) == TAKE:
+                for b2 in g.reachable_blocks():
+                    swi = option_switch(g, b2)
+                    if swi and _mentions_call_at(swi[0], TAKE, bb):
+                        out.append(swi[1])       # Some-side target
+        return out
+
+    def guarded_at(g, b, depth=0):
+        dom = g.dominators()
+        if any(t in dom.get(b, ()) for t in some_sides(g)):
+            return True
+        if g.name == nf.name or depth > 3:
+            return False
+        sites = []
+        for caller in fx.callers().get(g.name, ()):
+            cf = fx.fns.get(caller)
+            if cf is None or caller not in helpers:
+                return False
+            sites += [(cf, bb) for bb, t in cf.calls() if callee_of(t) == g.name]
+        return bool(sites) and all(guarded_at(cf, bb, depth + 1) for cf, bb in sites)
+
     tok_returns = []
-    for b in sorted(nf.reachable_blocks()):
-        for i, st in enumerate(nf.blocks[b]['stmts']):
-            if st['k'] == 'assign' and st['rv']['k'] == 'agg' and st['rv'].get('adt') == 'lex::Tok':
-                tok_returns.append((b, st['rv']['variant'], st.get('at')))
-    rep.floor('C16.R1 Tok constructions in next', len(tok_returns), 6)
-    for b, variant, at in tok_returns:
+    for gname in sorted(helpers):
+        g = fx.fns[gname]
+        for b in sorted(g.reachable_blocks()):
+            for i, st in enumerate(g.blocks[b]['stmts']):
+                if st['k'] == 'assign' and st['rv']['k'] == 'agg' and st['rv'].get('adt') == 'lex::Tok':
+                    tok_returns.append((g, b, st['rv']['variant'], st.get('at')))
+    rep.floor('C16.R1 Tok constructions in next and its helpers', len(tok_returns), 6)
+    from ..pathq import bool_branch, cmp_of
+    results = {}
+    for g, b, variant, at in tok_returns:
         if variant == 'EndOfInput':
             continue
-        guarded = any(t in dom.get(b, ()) for t in takes)
-        if variant == 'Whitespace':
+        guarded = guarded_at(g, b)
+        if variant == 'Whitespace' and not guarded:
             # guarded by pos > start after the whitespace loop
-            from ..pathq import bool_branch, cmp_of
-            for b2 in nf.reachable_blocks():
-                br = bool_branch(nf, b2)
+            dom = g.dominators()
+            for b2 in g.reachable_blocks():
+                br = bool_branch(g, b2)
                 if br:
                     c = cmp_of(br[0])
                     if c and c[0] == 'Gt' and '.pos' in expr_str(c[1]) and br[1] in dom.get(b, ()):
                         guarded = True
-        rep.add('C16.R1', 'C16.R1:next:token-consumed-text:%s' % variant, guarded,
+        k = 'C16.R1:next:token-consumed-text:%s' % variant
+        prev = results.get(k)
+        results[k] = (guarded and (prev is None or prev[0]), g.name, at) if guarded or prev is None else prev
+        if not guarded:
+            results[k] = (False, g.name, at)
+    for k, (guarded, gname, at) in sorted(results.items()):
+        variant = k.rsplit(':', 1)[1]
+        rep.add('C16.R1', k, guarded,
                 'returned only after take_char yielded a character' if guarded else
-                'Tok::%s can be returned without any character having been consumed: the caller loops forever on the same position' % variant,
-                nf.name, at)
+                'Tok::%s can be returned (from %s) without any character having been consumed: the caller loops forever on the same position' % (variant, short(gname)),
+                gname, at)
 
 
 def _loop_sig(f, h, body):
